@@ -665,7 +665,9 @@ class XsdComplexType(XsdType, ValidationMixin[Union[ElementType, str, bytes], An
             return isinstance(self.content, XsdSimpleType) and \
                 self.content.is_derived(other, derivation)
         elif self.has_simple_content():
+            # the content type itself is not a derivation step of the requested kind
             return isinstance(self.content, XsdSimpleType) and \
+                (not derivation or self.content is not other) and \
                 self.content.is_derived(other, derivation) or \
                 self.base_type is not self and \
                 self.base_type.is_derived(other, derivation)
